@@ -15,8 +15,8 @@ def run(tier, replay=None):
     out.add_tlc(gres)
     total = len(cases)
     if tier == "quick":
-        k = seed() % 3
-        cases = [c for i, c in enumerate(cases) if i % 3 == k]
+        k = seed() % 4
+        cases = [c for i, c in enumerate(cases) if i % 4 == k]
     else:                       # NL = 4: half a million files; every 6th, rotating with the seed
         k = seed() % 6
         cases = [c for i, c in enumerate(cases) if i % 6 == k]
@@ -161,5 +161,5 @@ def run(tier, replay=None):
         "generated_files_total": total, "generated_files_run": len(cases), "files_with_twin": len(items),
         "exhaustive": False,
         "evaluations": 2 * len(items), "distinct_nontrivial": len({json.dumps(i[1], sort_keys=True) for i in items}),
-        "rule": "Gen_TokLines: every sequence of <= 3 (thorough 4) tokens over 12 token classes as middle / last / unterminated last line (quick: every 2nd); Gen_Strays: 29 stray symbols x 5 placements x line position x good-line context x 2 endings (quick: every 5th); Gen_Lines: NL-line files (quick NL=3, every 3rd case rotating with seed; thorough NL=4, all) = good-line choices x 13 fault kinds x position x 3 line endings, every fifth through .include; + 7 faults x 3 endings injected at a random line of every repository/corpus program; each with its line-deleted twin",
+        "rule": "Gen_TokLines: every sequence of <= 3 (thorough 4) tokens over 12 token classes as middle / last / unterminated last line (quick: every 2nd); Gen_Strays: 29 stray symbols x 5 placements x line position x good-line context x 2 endings (quick: every 5th); Gen_Lines: NL-line files (quick NL=3, every 4th case rotating with seed; thorough NL=4, every 6th) = good-line choices (17 kinds incl. string directives) x 19 fault kinds x position x 3 line endings, every fifth through .include; + 7 faults x 3 endings injected at a random line of every repository/corpus program; each with its line-deleted twin",
     })
